@@ -29,6 +29,9 @@ for c in man["checks"]:
 na = man.get("not_applicable", [])
 if na:
     out.append("\nNot claimed: " + "; ".join("%s (%s)" % (n["property_id"], n["reason"][:80]) for n in na))
+out.append("\n### 6.6 Per-property assurance statements as built (generated from MANIFEST.json; supersede the plans of §3 where they differ)\n")
+for c in man["checks"]:
+    out.append("* **%s** (%s) — %s *Trusted / modelled-not-verified:* %s\n" % (c["property_id"], c["level_claimed"]["category"], c["level_claimed"]["text"].replace("\n", " "), c["level_note"].replace("\n", " ")))
 out.append("\n### 6.5 Seeded changes and which check catches them (generated from seeded/*/meta.json and seeded/RESULTS.json)\n")
 res = json.load(open("seeded/RESULTS.json")) if os.path.exists("seeded/RESULTS.json") else {}
 out.append("| seed | what the change does / what it needs | result |\n|---|---|---|")
